@@ -615,7 +615,7 @@ def tree_changed(builds):
 
 
 def save_replay(case, problems, name=None, extra=None):
-    rdir = os.path.join(VERIF, "replays", PROP)
+    rdir = (os.environ.get("VERIF_FOUND_DIR") if not name else None) or os.path.join(VERIF, "replays", PROP)
     os.makedirs(rdir, exist_ok=True)
     path = os.path.join(rdir, name or ("found-%s.json" % runner.case_hash(case)))
     doc = {"property": PROP, "case": case, "problems": [{k: v for k, v in p.items() if k != "stderr"} for p in problems[:5]],
